@@ -1117,6 +1117,8 @@ def c16():
                 # long names that contain the tilde themselves, in front of where the numeric tail goes
                 ["~$Report Q%d.docx" % i for i in range(min(pop, 12))] + ["my~notes chapter %d.txt" % i for i in range(min(pop, 12))]
                 + ["a~b~c long name %d.txt" % i for i in range(6)] + ["~~~~~~~~~ %d.t" % i for i in range(6)] + ["x~1 y %d.dat" % i for i in range(6)],
+                # a multi-byte first character directly in front of the dot, and nothing but multi-byte characters in the base
+                ["\u017c.txt", "\u65e5\u672c.txt", "\u00e9.a", "\u00fc.x.y", "\u65e5.\u672c", "\u00df.", "\u0142\u00f3d\u017a.pl", "\u20ac.eur"] + ["\u017c%d.txt" % i for i in range(min(pop, 6))],
                 # names whose 8.3 base is empty (only spaces and dots before the extension): the alias is ~N.EXT
                 [b + e for e in (".txt", ".a") for b in (" ", "  ", "   ", ". ", " .", ".. ", " . ", "    ")][:max(6, min(pop, 16))] + [" x", "  x", ".x", "..x"],
             ]
